@@ -72,14 +72,14 @@ def hull_triangles(v):
 
 
 def body_strategy():
-  return st.fixed_dictionaries(dict(ngeom=st.integers(1, 4), nchild=st.integers(0, 2), logscale=st.integers(-15, 5),
+  return st.fixed_dictionaries(dict(ngeom=st.integers(1, 4), nchild=st.integers(0, 2), logscale=st.integers(-30, 5),
                                     grouprange=st.booleans(), seed=st.integers(0, 2 ** 31 - 1)))
 
 
 def main(ck):
   lib = ck.lib('rel')
   from vf import mj
-  ck.rule = ('Hypothesis draws #geoms (1-4), #geoms of a child body, scale (0.03..3), inertiagrouprange on/off, seed; types, sizes, '
+  ck.rule = ('Hypothesis draws #geoms (1-4), #geoms of a child body, scale (0.001..3), inertiagrouprange on/off, seed; types, sizes, '
              'poses, density/mass, shellinertia, mesh kind and inertia mode from the seed; non-trivial = >=2 geoms with '
              'different orientations or a mesh geom; distinct by xml. Second family: tessellations of primitives at 3 resolutions')
   ck.assumptions = ['compiler flags boundmass/boundinertia/balanceinertia/settotalmass off (defaults)',
@@ -176,15 +176,9 @@ def main(ck):
     if ec > kc:
       raise Violation('%s: body_ipos %s, reference COM %s xml=%s' % (what, np.array(m.body_ipos[b]).tolist(), com.tolist(),
                                                                       xml), bucket='com')
-    if ei > ki and ei <= ki + 30e-12 / tmin:
-      # FINDING: mjuu_eig3 stops on absolute thresholds (kEigEPS = 1e-12 on the off-diagonal entries) although mesh
-      # inertias are diagonalised per unit density (~L^5): below L ~ 1 cm the principal axes are wrong or not computed
-      finding('eig3-absolute-eps', 'mjuu_eig3 (compiler) terminates on an absolute off-diagonal threshold 1e-12: small '
-              'inertias (mesh of a few mm: unit-density inertia ~1e-13; small bodies) keep their off-diagonal terms, '
-              'body_iquat/geom_quat stay near identity and R diag(I) R^T differs from the true tensor (7.6 percent for a '
-              '1x2x3 mm box mesh) -- %s: relative error %.3g, smallest diagonalised trace %.3g xml=%s' % (what, ei, tmin, xml),
-              dict(xml=xml))
-    elif ei > ki:
+    # (small inertias used to keep their off-diagonal terms because mjuu_eig3 stopped on an absolute threshold; repaired by a
+    # fix: commit, so there is no allowance any more)
+    if ei > ki:
       raise Violation('%s: R diag(I) R^T =\n%s\nreference inertia about the COM =\n%s\n(rel %.3g) xml=%s' % (
           what, Ie, I, ei, xml), bucket='inertia')
     if np.any(di <= 0):
